@@ -323,11 +323,114 @@ pub fn render(c: &SnapCase) -> Value {
     })
 }
 
+#[derive(Clone, Debug, PartialEq, Eq, Hash, Serialize, Deserialize)]
+pub struct LargeCase {
+    pub tasks: u16,
+    pub strings: Vec<String>,
+    /// how many of the tasks are changed again after the snapshot
+    pub later: u16,
+}
+
+/// Thousands of tasks: the snapshot of a large task set must equal the chain replay, and a fresh
+/// replica starting from it plus later versions must equal the full replay.
+pub fn check_large(c: &LargeCase) -> CheckResult {
+    let mut rep = CaseReport::default();
+    let mut w = World::new(1);
+    let n = c.tasks as usize;
+    let strings = if c.strings.is_empty() { vec!["x".to_string()] } else { c.strings.clone() };
+    // build in commits of 200 tasks
+    let mut i = 0;
+    while i < n {
+        let mut ops = vec![];
+        for k in i..(i + 200).min(n) {
+            let uuid = Uuid::from_u128(0x1a46e_0000 + k as u128);
+            ops.push(taskchampion::Operation::Create { uuid });
+            if k % 7 != 0 {
+                // every 7th task stays empty
+                for (pi, s) in strings.iter().enumerate().take(1 + k % 3) {
+                    ops.push(taskchampion::Operation::Update {
+                        uuid,
+                        property: format!("{}{}", s, pi),
+                        old_value: None,
+                        value: Some(format!("{}-{k}", strings[(k + pi) % strings.len()])),
+                        timestamp: crate::engine::model::ts(0),
+                    });
+                }
+            }
+        }
+        w.reps[0].commit(ops).map_err(|e| Failure::new("commit-error", format!("{e}")))?;
+        i += 200;
+    }
+    // the last accepted version is answered with urgency high
+    w.server.state.borrow_mut().urgency = vec![2; 64].into();
+    w.sync(0).map_err(|e| Failure::new("sync-error", format!("sync failed: {e}")))?;
+    let mut nontrivial = false;
+    let avoid = [false];
+    check_snapshots(&w, 0, 0, &avoid, &mut rep, &mut nontrivial)?;
+    let nsnap = w.server.state.borrow().snapshots.len();
+    crate::ensure!(nsnap >= 1, "no-snapshot", "no snapshot was uploaded although urgency high was stated");
+    // later changes
+    let mut ops = vec![];
+    for k in 0..(c.later as usize).min(n) {
+        let uuid = Uuid::from_u128(0x1a46e_0000 + k as u128);
+        ops.push(taskchampion::Operation::Update {
+            uuid,
+            property: "later".into(),
+            old_value: None,
+            value: Some("yes".into()),
+            timestamp: crate::engine::model::ts(1),
+        });
+    }
+    w.server.state.borrow_mut().urgency.clear();
+    if !ops.is_empty() {
+        w.reps[0].commit(ops).map_err(|e| Failure::new("commit-error", format!("{e}")))?;
+        w.sync(0).map_err(|e| Failure::new("sync-error", format!("sync failed: {e}")))?;
+    }
+    // fresh replica: snapshot + later versions only
+    let (offer, hide) = {
+        let st = w.server.state.borrow();
+        let (v, b, _) = st.snapshots.last().unwrap().clone();
+        (Some((v, b)), st.index_of(v).map(|i| i + 1).unwrap_or(0))
+    };
+    let r = w.add_replica(Rep::mem(&pool()));
+    *w.ctls[r].offer.borrow_mut() = offer;
+    w.ctls[r].hide_before.set(hide);
+    w.sync(r).map_err(|e| Failure::new("fresh-sync-error", format!("sync of a fresh replica failed: {e}")))?;
+    let want = replay_upto(&w, w.server.state.borrow().latest())?;
+    let got = w.reps[r].tasks();
+    crate::ensure!(
+        got == want,
+        "fresh-replica-state",
+        "a fresh replica started from a snapshot of {n} tasks holds {} tasks that differ from the full replay ({} tasks)",
+        got.0.len(),
+        want.0.len()
+    );
+    rep.class("large-task-set");
+    rep.nontrivial = n >= 100;
+    Ok(rep)
+}
+
+pub fn large_strategy(max_tasks: u16) -> BoxedStrategy<LargeCase> {
+    (100..max_tasks, proptest::collection::vec("\\PC{1,10}", 1..5), 0u16..50)
+        .prop_map(|(tasks, strings, later)| LargeCase { tasks, strings, later })
+        .boxed()
+}
+
 pub fn run(e: &Engine) {
     e.assume("snapshots and versions are observed in plaintext at the Server trait boundary of the harness ModelServer");
     let rule = "C01-style histories with generated Unicode property names/values, an urgency script, avoid_snapshots per replica, fresh replicas and foreign-snapshot offers; \
 non-trivial = a checked snapshot at chain position >= 2 with >= 1 task, or a fresh replica that started from a snapshot and applied later versions";
     e.campaign("snapshots", rule, e.tier.pick(20_000, 600_000), || strategy(e.tier.pick(24, 60), 0), render, check_case);
+    e.set_shrink_iters(60);
+    e.campaign(
+        "snapshots-large",
+        "task sets of 100-1500 tasks (thorough: up to 6000) with generated Unicode property names and values and empty tasks, committed in chunks, snapshot requested with the last version, then later changes; snapshot == chain replay at its version; a fresh replica from snapshot + later versions == full replay",
+        e.tier.pick(12, 200),
+        || large_strategy(e.tier.pick(1500, 6000)),
+        |c| serde_json::json!({"tasks": c.tasks, "strings": c.strings, "changed_after_snapshot": c.later}),
+        check_large,
+    );
+    e.set_shrink_iters(4000);
     e.campaign(
         "snapshots-multibatch",
         "as 'snapshots' with pending changes above the batching threshold, so that urgency can be stated between two batches of one sync",
